@@ -179,6 +179,17 @@ macro_rules! paths_owned {
 				c.scoped_lock(&mut key, |_| ());
 				drop(c);
 			}
+			"drop_unwinding" => {
+				// the collection is a local of a frame that a panic unwinds through (thread::panicking() is true
+				// while its destructor runs)
+				let c = $coll::new(data);
+				c.scoped_lock(&mut key, |_| ());
+				let r = std::panic::catch_unwind(std::panic::AssertUnwindSafe(move || {
+					let _c = c;
+					std::panic::resume_unwind(Box::new(0u8));
+				}));
+				let _ = r;
+			}
 			"into_inner" => {
 				let c = $coll::new(data);
 				bump_child!($coll, c, key, $wpos);
